@@ -170,6 +170,33 @@ theorem atPath_eq {α} (cwd : CPath) (path : Bytes) (onErr : Errno → Prog α) 
     atPath cwd path onErr k = atPathS cwd path onErr k := by
   unfold atPath atPathS; simp only [resolve_eq] <;> rfl
 
+def mkdirStrS (cwd : CPath) (name : Bytes) (mode : Nat) : Prog Res :=
+  atPathS cwd name (fun er => pure (.error er)) fun p => sys (.mkdir p mode)
+theorem mkdirStr_eq (cwd : CPath) (name : Bytes) (mode : Nat) : mkdirStr cwd name mode = mkdirStrS cwd name mode := by
+  unfold mkdirStr mkdirStrS; exact atPath_eq _ _ _ _
+
+def makedirsStrS (cwd : CPath) : Nat → Bytes → Nat → Prog Res
+  | 0, name, mode => mkdirStrS cwd name mode
+  | fuel+1, name, mode => do
+    let fs ← read
+    let head := (makedirsSplit name).1
+    let tail := (makedirsSplit name).2
+    if head ≠ [] ∧ tail ≠ [] ∧ ¬ pExistsS fs cwd head then
+      match ← makedirsStrS cwd fuel head 0o777 with
+      | .error .EEXIST => if tail = [dot] then pure (.ok ()) else mkdirStrS cwd name mode
+      | .error er => pure (.error er)
+      | .ok () => if tail = [dot] then pure (.ok ()) else mkdirStrS cwd name mode
+    else mkdirStrS cwd name mode
+theorem makedirsStr_eq (cwd : CPath) : ∀ (fuel : Nat) (name : Bytes) (mode : Nat),
+    makedirsStr cwd fuel name mode = makedirsStrS cwd fuel name mode := by
+  intro fuel
+  induction fuel with
+  | zero => intro name mode; unfold makedirsStr makedirsStrS; exact mkdirStr_eq _ _ _
+  | succ f ih =>
+    intro name mode
+    unfold makedirsStr makedirsStrS
+    simp only [pExists_eq, ih, mkdirStr_eq] <;> rfl
+
 def restoreOneS (cwd : CPath) (overwrite : Bool) (e : Entry) : Prog Res := do
   let fs ← read
   if ¬ overwrite ∧ pLexistsS fs cwd e.loc then pure (.error .EEXIST)
@@ -178,25 +205,29 @@ def restoreOneS (cwd : CPath) (overwrite : Bool) (e : Entry) : Prog Res := do
     let mk ← (if pIsdirS fs cwd parentStr then pure (.ok ())
               else match danglingOnPathS fs cwd parentStr with
                    | some er => pure (.error er)
-                   | none => makedirs (dirCS fs cwd parentStr).length (dirCS fs cwd parentStr) 0o777)
+                   | none =>
+                     if hasDotComp parentStr then makedirsStrS cwd parentStr.length parentStr 0o777
+                     else makedirs (dirCS fs cwd parentStr).length (dirCS fs cwd parentStr) 0o777)
     match mk with
     | .error er => pure (.error er)
     | .ok () =>
       let fs ← read
-      let cleared ← (if overwrite ∧ pLexistsS fs cwd (pathOfBackupCopy e.info) ∧ pLexistsS fs cwd e.loc ∧
-                        (pIslinkS fs cwd e.loc ∨ ¬ pIsdirS fs cwd e.loc) then
-                       atPathS cwd e.loc (fun er => pure (.error er)) fun p => removeFile p
-                     else pure (.ok ()))
-      match cleared with
-      | .error er => pure (.error er)
-      | .ok () =>
-        let fs ← read
-        let payloadStr := pathOfBackupCopy e.info
-        restoreCore (resolveS fs cwd payloadStr) (resolveS fs cwd e.loc) (resolveS fs cwd e.info)
+      if ¬ overwrite ∧ pLexistsS fs cwd e.loc then pure (.error .EEXIST)
+      else
+        let cleared ← (if overwrite ∧ pLexistsS fs cwd (pathOfBackupCopy e.info) ∧ pLexistsS fs cwd e.loc ∧
+                          (pIslinkS fs cwd e.loc ∨ ¬ pIsdirS fs cwd e.loc) then
+                         atPathS cwd e.loc (fun er => pure (.error er)) fun p => removeFile p
+                       else pure (.ok ()))
+        match cleared with
+        | .error er => pure (.error er)
+        | .ok () =>
+          let fs ← read
+          let payloadStr := pathOfBackupCopy e.info
+          restoreCore (resolveS fs cwd payloadStr) (resolveS fs cwd e.loc) (resolveS fs cwd e.info)
 theorem restoreOne_eq (cwd : CPath) (overwrite : Bool) (e : Entry) :
     restoreOne cwd overwrite e = restoreOneS cwd overwrite e := by
   unfold restoreOne restoreOneS
-  simp only [pLexists_eq, pIsdir_eq, pIslink_eq, danglingOnPath_eq, dirC_eq, resolve_eq, atPath_eq] <;> rfl
+  simp only [pLexists_eq, pIsdir_eq, pIslink_eq, danglingOnPath_eq, dirC_eq, resolve_eq, atPath_eq, makedirsStr_eq] <;> rfl
 
 def restoreManyS (cwd : CPath) (overwrite : Bool) : List Entry → Prog Res
   | [] => pure (.ok ())
